@@ -10,12 +10,13 @@ FUNCTIONS = [
 ASSUMPTIONS = [
     'part (a): original and transformed program are both compiled by the real compiler; z3 proves the two SQL texts return the same multiset on every database with <=K rows per table; transformations: permutation of rules, of conjuncts at every nesting level, of disjuncts; consistent renaming of variables (names that sort in reverse order, names that look like compiler-generated names such as col0/t_0, short names) and of predicates',
     'base programs: catalogue families core, agg, rec (lv/gen.py) and the functor programs of C04 (made predicates renamed so that their alphabetical order changes, := lines permuted); List columns compared as multisets; ArgMin/ArgMax under no-tie assumption',
+    'a transformed program that the compiler rejects while the original compiles is a violation (known finding KF-C07-order-dependent-elimination is matched by its diagnostic on a pure conjunct permutation)',
     'trusted: lv/sqlsem.py (validated against SQLite in C01/C02 self-tests), z3',
 ]
 
 
 def run():
-  return pairrun.run_pairs('C07', [('lv.gen_meta', 'c07_pairs', 96, 5000), ('lv.gen_meta', 'c07_functor_pairs', 24, 1000)], FUNCTIONS, ASSUMPTIONS,
+  return pairrun.run_pairs('C07', [('lv.gen_meta', 'c07_pairs', 96, 5000), ('lv.gen_meta', 'c07_functor_pairs', 24, 1000), ('lv.gen_meta', 'c07_kf_pairs', 1, 1)], FUNCTIONS, ASSUMPTIONS,
                            'DESIGN.md §3 C07',
                            rejected_is_violation=lambda r: r.get('rejected_side') == 'b')
 
